@@ -109,6 +109,8 @@ class FST:
         output_symbols : iterable of Any
             The symbols to output
         """
+        # Any iterable is accepted, the outputs are kept as a list
+        output_symbols = list(output_symbols)
         self._states.add(s_from)
         self._states.add(s_to)
         if input_symbol != "epsilon":
